@@ -1432,7 +1432,11 @@ func (self *Fork) getDisabledSource(exp *syntax.DisabledExp) (syntax.Exp, error)
 		return nil, err
 	}
 	if !ready {
-		panic("disabled binding " + exp.Disabled.GoString() + " was not ready")
+		// Not a programming error: forks are also computed when mrp re-attaches
+		// to a pipestance (RestoreForks), for every node, whether or not the
+		// call which produces the condition has finished.
+		return nil, fmt.Errorf("disabled binding %s is not ready",
+			exp.Disabled.GoString())
 	}
 	if result == nil {
 		return nil, nil
